@@ -282,7 +282,7 @@ class Cplex(Suite):
 
 
 if __name__ == "__main__":
-    main("C05", [Exact(), Ilp(), Cplex()],
+    main("C05", [Exact(), Ilp(), Cplex()], gen_targets=["step6"],
          level_note="see MANIFEST",
          rule="witnesses of F1 / F2 / F6; 3-ranking datasets over {0,1,2}; layered and random datasets up to 6 elements, schemes biased to "
               "B5 != T5; four configurations per dataset (selector optimize on/off, free-solver model one / all); the optimum is recomputed "
